@@ -19,10 +19,14 @@ def check_one(H, n, reduced, positions, perm=None):
                     {"n": n, "reduced": reduced, "positions": positions, "perm": perm}, clause="removed-table")
         return
     I = np.array(positions, dtype=int)
-    if perm is None:
-        got = rdp.mapping(I, reduced, removed)
-    else:
-        got = rdp.mapping(I, reduced, removed[list(perm)], sorted=False)
+    rem = removed if perm is None else removed[list(perm)]
+    before = (I.copy(), reduced.copy(), rem.copy())
+    for attempt in (1, 2):      # the history clause: a second call on the same reduction gives the same answer
+        got = rdp.mapping(I, reduced, rem) if perm is None else rdp.mapping(I, reduced, rem, sorted=False)
+        if not (np.array_equal(before[0], I) and np.array_equal(before[1], reduced) and np.array_equal(before[2], rem)):
+            H.violation("mapping modified its arguments: removed %s -> %s" % (before[2].tolist(), rem.tolist()),
+                        {"n": n, "reduced": reduced, "positions": positions, "perm": perm}, clause="frame")
+            return
     want = reduced[I] if len(I) else np.array([])
     if len(got) != len(want) or not np.array_equal(np.asarray(got), want):
         H.violation("mapping(%s, %s, removed%s) = %s, expected %s" % (I.tolist(), reduced.tolist(),
